@@ -24,7 +24,7 @@ ASSUMPTIONS = [
     "generated curves are monotone non-decreasing sequences of 257 values in 0..0x8000",
 ]
 REQUIRED_LABELS = {
-    "quick": ["macro_single", "macro_multi", "macro_too_many", "macro_duplicate", "axis_normal", "axis_reversed", "unset_mapping_link", "curve_custom", "quantized", "convert_direct", "freed_slot_link", "link_to_controllerless_module", "multictl_out_offset_negative", "multictl_out_offset_set", "compact_target_before_other_target", "mixed_range_kinds_in_one_fanout"],
+    "quick": ["macro_single", "macro_multi", "macro_too_many", "macro_duplicate", "axis_normal", "axis_reversed", "unset_mapping_link", "curve_custom", "quantized", "convert_direct", "freed_slot_link", "link_to_controllerless_module", "multictl_out_offset_negative", "multictl_out_offset_set", "compact_target_before_other_target", "mixed_range_kinds_in_one_fanout", "every_range_shape_with_edge_windows"],
     "thorough": ["macro_single", "macro_multi", "macro_too_many", "macro_duplicate", "axis_normal", "axis_reversed", "unset_mapping_link", "curve_custom", "quantized", "convert_direct", "compact_target"],
 }
 
@@ -44,6 +44,14 @@ def plan(tier):
         descs.append({"kind": "axis", "examples": per})
     for i in range(4):
         descs.append({"kind": "convert", "examples": per * 5})
+    # every distinct range shape (kind, min, max) of the specification with edge windows / gains,
+    # inputs at both ends of the axis and a stride in between
+    shapes = {}
+    for t in ranged_targets():
+        shapes.setdefault((t[3], t[4], t[5]), t)
+    reps = [shapes[k] for k in sorted(shapes)]
+    for i in range(8):
+        descs.append({"kind": "shapes", "targets": [list(t) for t in reps[i::8]]})
     return descs
 
 
@@ -259,7 +267,7 @@ def run_axis_case(ctx, case, stride=1):
     by_snapshot = dict(bystander.controller_values) if bystander else None
     prev = [None] * len(mods)
     ctlnames = [t["ctl"] for t in case["targets"]]
-    for v in range(0, 32769, stride):
+    for v in (case.get("inputs") or range(0, 32769, stride)):
         try:
             mc.value = v
         except Exception as e:  # noqa: BLE001
@@ -356,6 +364,26 @@ def run_shard(ctx, desc):
             ctx.sample({"op": "macro", "n_targets": len(case["targets"]), "first": case["targets"][:2], "initial": case["initial"], "outcome": lab})
 
         run_property(ctx, macro_case(), body, desc["examples"], tag="macro")
+    elif k == "shapes":
+        inputs = sorted(set(range(0, 130)) | set(range(32640, 32769)) | set(range(0, 32769, 257)) | {16383, 16384, 16385})
+        for t in desc["targets"]:
+            span = t[5] - t[4]
+            hi = span if t[3] == "compact" else 32768
+            for a, b in ((0, hi), (hi, 0), (1, hi - 1), (hi - 1, 1), (0, hi // 2), (hi, hi // 2)):
+                for gain in (256, 1024, 255):
+                    for q in (32768, 3):
+                        case = {
+                            "targets": [{"type": t[0], "ctl": t[1], "number": t[2], "kind": t[3], "min": t[4], "max": t[5], "window": [a, b]}],
+                            "gain": gain, "quantization": q, "curve": None, "unset_link": False, "freed_slot": False, "link_to_output": False, "others": {}, "inputs": inputs,
+                        }
+                        try:
+                            run_axis_case(ctx, case)
+                        except PropertyViolation as v:
+                            ctx.check(False, v.sub_oracle, v.detail, key=v.sub_oracle + ":%s.%s" % (t[0], t[1]), recipe={"tag": "shapes", "case": case})
+                        ctx.case(len(inputs))
+            ctx.mark_nontrivial(["shape", t[3], t[4], t[5]])
+            ctx.sample({"op": "shape", "target": t[:2], "range": t[3:6], "tuples": 36, "inputs_per_tuple": len(inputs)})
+        ctx.label("every_range_shape_with_edge_windows")
     elif k == "axis":
 
         def body(case):
@@ -385,7 +413,9 @@ def replay(ctx, doc):
     r = doc["recipe"]
     tag = r.get("tag")
     case = r.get("case", r)
-    if tag == "axis":
+    if tag == "shapes":
+        run_axis_case(ctx, case)
+    elif tag == "axis":
         run_axis_case(ctx, case)
         run_convert_case(ctx, case)
     elif tag == "convert":
